@@ -113,6 +113,35 @@ class Program:
         self._defs = {}
         self._live = {}
 
+    def stored_fields(self):
+        """(adt, field) pairs that some statement assigns to, or takes a `&mut` of, after construction"""
+        sf = getattr(self, "_stored_fields", None)
+        if sf is not None:
+            return sf
+        sf = set()
+
+        def note(proj):
+            for el in proj:
+                if isinstance(el, dict) and "f" in el and el.get("adt"):
+                    sf.add((el["adt"], el.get("n")))
+        for b in self.bodies.values():
+            for blk in b.get("blocks", []):
+                for st in blk.get("stmts", []):
+                    if st.get("k") in ("assign", "setdiscr"):
+                        fl = [el for el in st["p"]["proj"] if isinstance(el, dict) and "f" in el]
+                        if fl:
+                            note(fl[-1:])          # the field actually written
+                        rv = st.get("rv") or {}
+                        if rv.get("k") in ("ref", "rawptr") and rv.get("mut"):
+                            note([el for el in rv["p"]["proj"] if isinstance(el, dict) and "f" in el])
+                t = blk.get("term") or {}
+                if t.get("k") == "call":
+                    fl = [el for el in (t.get("dest") or {}).get("proj", []) if isinstance(el, dict) and "f" in el]
+                    if fl:
+                        note(fl[-1:])
+        self._stored_fields = sf
+        return sf
+
     def inlinable(self, c):
         """c: callee object of a call terminator."""
         k = c.get("rkey")
@@ -307,7 +336,7 @@ class EGraph:
     def inst(self, n):
         return self.insts[n[0]]
 
-    def _closure_keys(self, c):
+    def _closure_keys(self, c, where=None):
         out = []
         for g in c.get("rgargs") or c.get("gargs") or []:
             if "closure" in g and g["closure"] in self.prog.bodies:
@@ -315,7 +344,46 @@ class EGraph:
             elif "fndef" in g and g["fndef"] in self.prog.bodies and self.prog.inlinable({"rkey": g["fndef"]}):
                 # a crate-local fn item handed to an adaptor (`.any(WriteRequest::wants_sync)`) is called like a closure
                 out.append(g["fndef"])
+            elif "fndef" in g and g["fndef"] not in self.prog.bodies and re.match(r"^(std|core|alloc|fs2|codeq|byteorder)::", g["fndef"]) \
+                    and not re.search(r"(^|::)(Some|Ok|Err|Box|Arc|Rc)(::new)?$|::from$|::into$|::clone$|::to_string$|::to_owned$|::default$", g["fndef"]):
+                # a std / dependency function handed to an adaptor (`paths.into_iter().try_for_each(fs::remove_file)`): the adaptor calls
+                # it per element, so it is an event of this program although no call terminator names it: a one-call shim body
+                k = self._shim_body(g, where)
+                if k:
+                    out.append(k)
         return out
+
+    def _shim_body(self, g, where):
+        m = re.match(r"^(?:for<[^>]*> )?(?:unsafe )?fn\((.*)\)(?: -> (.*))? \{", g.get("s", ""))
+        if not m:
+            return None
+        params, depth, cur = [], 0, ""
+        for ch in m.group(1):
+            if ch in "<([":
+                depth += 1
+            elif ch in ">)]":
+                depth -= 1
+            if ch == "," and depth == 0:
+                params.append(cur.strip())
+                cur = ""
+            else:
+                cur += ch
+        if cur.strip():
+            params.append(cur.strip())
+        ret = (m.group(2) or "()").strip()
+        key = "<shim>::" + g["fndef"] + "::" + str(len(params))
+        if key not in self.prog.bodies:
+            f, ln = (where or ("<shim>", 0))
+            call = {"k": "call", "callee": {"path": g["fndef"], "full": g["fndef"], "local": False, "gargs": [], "rkind": "item",
+                                            "rpath": g["fndef"], "rfull": g["fndef"], "rlocal": False, "rgargs": []},
+                    "args": [{"k": "move", "p": {"l": i + 1, "proj": []}} for i in range(len(params))],
+                    "dest": {"l": 0, "proj": []}, "dest_ty": ret, "target": 1, "file": f, "line": ln}
+            self.prog.bodies[key] = {"key": key, "path": key, "kind": "Fn", "file": f, "line": ln, "line_hi": ln, "argc": len(params),
+                                     "vis": "Private", "pub": False, "sig": g.get("s", ""), "generics": [], "ret_ty": ret, "promoted": [],
+                                     "locals": [{"ty": ret}] + [{"ty": p_} for p_ in params],
+                                     "blocks": [{"cleanup": False, "stmts": [], "term": call},
+                                                {"cleanup": False, "stmts": [], "term": {"k": "return", "file": f, "line": ln}}]}
+        return key
 
     def _build(self, inst):
         body = inst.body
@@ -393,7 +461,7 @@ class EGraph:
                             self._edge(r, (inst.id, tgt), ("ret", n))
                 else:
                     # event; closures handed to it may be called 0..n times at this point
-                    cks = self._closure_keys(c) if (c and self.inline_closures) else []
+                    cks = self._closure_keys(c, (t.get("file") or body.get("file"), t.get("line") or body.get("line"))) if (c and self.inline_closures) else []
                     is_spawn = bool(c and re.search(r"thread::(Builder::spawn|spawn)", c["path"]))
                     if tgt is not None:
                         self._edge(n, (inst.id, tgt))
@@ -521,7 +589,10 @@ class EGraph:
             return False
         for f in a["variants"][0]["fields"]:
             if f["name"] == el.get("n"):
-                return bool(self._SCALAR.match(f["ty"]))
+                if not self._SCALAR.match(f["ty"]):
+                    return False
+                # a plain field that no statement of the crate ever stores to or borrows mutably keeps the value it was built with
+                return (adt, el.get("n")) in self.prog.stored_fields()
         return False
 
     def _field(self, base, name, idx, scalar=False):
